@@ -361,3 +361,40 @@ Proof.
   apply bind_ok in H. destruct H as [[s1 sc] [Hps H]].
   exists s1, sc. split; assumption.
 Qed.
+
+(* ---------- any sequence of swaps (direct or routed hops) on any pools ---------- *)
+Record swap_req := { rq_offer : coin; rq_ask : string; rq_pool : string; rq_belief : option Z; rq_slip : option Z }.
+
+Fixpoint swaps_run (s : pm_state) (l : list swap_req) : res pm_state :=
+  match l with
+  | [] => Ok s
+  | r :: rest =>
+      let* (s1, _) := perform_swap s (rq_offer r) (rq_ask r) (rq_pool r) (rq_belief r) (rq_slip r) in
+      swaps_run s1 rest
+  end.
+
+Lemma swaps_run_pools l : forall s s',
+  pm_wf s -> Forall (fun r => 0 <= amount_of (rq_offer r)) l ->
+  swaps_run s l = Ok s' ->
+  pm_wf s' /\
+  forall id p, sfind p_id id (pm_pools s) = Some p ->
+    exists p', sfind p_id id (pm_pools s') = Some p' /\ p_type p' = p_type p /\
+      (p_type p = ConstantProduct -> prod2 (p_assets p) <= prod2 (p_assets p')).
+Proof.
+  induction l as [|r rest IH]; intros s s' Hwf Hall H; cbn [swaps_run] in H.
+  - inversion H; subst. split; [assumption|]. intros id0 p Hp. exists p. repeat split; auto. lia.
+  - apply bind_ok in H. destruct H as [[s1 sc] [Hps H]].
+    inversion Hall as [|x xs Hx Hxs]; subst.
+    pose proof (perform_swap_pools _ _ _ _ _ _ _ _ Hwf Hx Hps) as (Hwf1 & _ & Hpools1).
+    destruct (IH _ _ Hwf1 Hxs H) as (Hwf' & Hpools').
+    split; [assumption|]. intros id0 p Hp.
+    destruct (Hpools1 _ _ Hp) as (p1 & F1 & _ & A2 & _ & _ & _ & _ & _ & A8 & _).
+    destruct (Hpools' _ _ F1) as (p2 & F2 & B2 & B8).
+    exists p2. repeat split; try congruence.
+    intros Ht. rewrite A2 in B8. specialize (A8 Ht). specialize (B8 Ht). lia.
+Qed.
+
+(* arithmetic core of "no profitable round trip" on one constant-product pool: if the pool has not gained X
+   (so the traders collectively did not lose X) it cannot have lost Y *)
+Lemma cp_no_profit x y x' y' : 0 < x' -> 0 <= y' -> x * y <= x' * y' -> x' <= x -> y <= y'.
+Proof. intros. nia. Qed.
